@@ -108,6 +108,31 @@ def run_checks(name, tier, props=None):
     return result
 
 
+def table():
+    """markdown table for DESIGN.md: every seeded change, what it is, which check caught it and with what"""
+    allr = json.load(open(os.path.join(SEEDED, "RESULTS.json")))
+    notes = json.load(open(os.path.join(SEEDED, "NOTES.json")))
+    rows = ["| change | what was changed (summary of the author's meta.json) | quick check | first replay file | note |", "|---|---|---|---|---|"]
+    for name in sorted(n for n in os.listdir(SEEDED) if os.path.isdir(os.path.join(SEEDED, n))):
+        meta = json.load(open(os.path.join(SEEDED, name, "meta.json")))
+        summ = " ".join(meta.get("summary", "").split())
+        summ = (summ[:230] + "...") if len(summ) > 230 else summ
+        summ = summ.replace("|", "\\|")
+        res = allr.get(name, {})
+        cells = []
+        first = ""
+        for k in sorted(res):
+            r = res[k]
+            st = "caught" if r["rc"] == 1 and r["violations"] else "missed" if r["rc"] == 0 else "infra"
+            cells.append("%s: %s (%d violations, %ss)" % (k, st, r["violations"], r["wall_s"]))
+            if r.get("first") and not first:
+                first = os.path.basename(r["first"][0].split("replay=")[-1])
+        if str(meta.get("status", "")).startswith("obsolete"):
+            cells = ["obsolete"]
+        rows.append("| %s | %s | %s | %s | %s |" % (name, summ, "; ".join(cells), first, notes.get(name, "")))
+    return "\n".join(rows)
+
+
 def main():
     a = sys.argv[1:]
     if not a:
@@ -117,6 +142,8 @@ def main():
     elif a[0] == "confirm":
         for n in names(a[1:]):
             confirm(n)
+    elif a[0] == "table":
+        print(table())
     elif a[0] == "run":
         tier = "quick"
         props = None
